@@ -1,5 +1,5 @@
-import AiocoapModel.Basic.Bytes
-/-! Line protocol for C03 (not built yet). -/
+import AiocoapModel.Driver.MsgLayer
+/-! C03 is decided on the shared message-layer model. -/
 namespace Aiocoap
-def handleC03 (_args : List String) : String := "out-of-model"
+def handleC03 (args : List String) : String := MsgLayer.handleMsgLayer args
 end Aiocoap
